@@ -90,6 +90,8 @@ def deserialize_list_like(
 
     values = []
     items = field.items
+    if isinstance(field, Tuple) and len(items) == 1:
+        items = items[0]  # Tuple[X]: any number of elements, all of them X
     if isinstance(items, Field):
         ignore_none = getattr(items, IGNORE_NONE_VALUES, False)
         for i, v in enumerate(value):
@@ -109,6 +111,10 @@ def deserialize_list_like(
                 raise ValueError(f"{prefix}{str(e)}") from e
             values.append(list_item)
     elif isinstance(items, (list, tuple)):
+        if len(value) < len(items):
+            raise ValueError(
+                f"{name}: Got {value}; Expected at least {len(items)} items"
+            )
         for i, item in enumerate(items):
             try:
                 ignore_none = getattr(item, IGNORE_NONE_VALUES, False)
@@ -989,7 +995,7 @@ def serialize_val(
         if isinstance(items, list):
             return [
                 serialize_val(
-                    items[ind],
+                    items[ind] if ind < len(items) else None,
                     name,
                     v,
                     mapper=mapper,
@@ -1015,6 +1021,18 @@ def serialize_val(
                 )
                 for i in val
             ]
+    if isinstance(field_definition, Tuple) and isinstance(val, tuple):
+        items = field_definition.items
+        return [
+            serialize_val(
+                items[0] if len(items) == 1 else items[ind] if ind < len(items) else None,
+                name,
+                v,
+                mapper=mapper,
+                camel_case_convert=camel_case_convert,
+            )
+            for ind, v in enumerate(val)
+        ]
     if isinstance(val, (list, set, tuple)):
         return [
             serialize_val(None, name, i, camel_case_convert=camel_case_convert)
